@@ -422,9 +422,16 @@ impl<T: RealNumber> DecisionTreeRegressor<T> {
                 if self.nodes[visitor.node].split_score == Option::None
                     || gain > self.nodes[visitor.node].split_score.unwrap()
                 {
+                    // rows are routed with `x <= split_value`, so the threshold has to stay below the
+                    // current value: between two neighbouring floats the midpoint rounds onto the upper
+                    // one, the rows holding it would follow the wrong child and the child means computed
+                    // here would no longer belong to the rows they are stored for
+                    let mut split_value = (visitor.x.get(*i, j) + prevx) / T::two();
+                    if split_value >= visitor.x.get(*i, j) {
+                        split_value = prevx;
+                    }
                     self.nodes[visitor.node].split_feature = j;
-                    self.nodes[visitor.node].split_value =
-                        Option::Some((visitor.x.get(*i, j) + prevx) / T::two());
+                    self.nodes[visitor.node].split_value = Option::Some(split_value);
                     self.nodes[visitor.node].split_score = Option::Some(gain);
                     visitor.true_child_output = true_mean;
                     visitor.false_child_output = false_mean;
